@@ -91,3 +91,13 @@ func (core *Core) VerifC05SDB() *state.ChainStateDB { return core.sdb }
 func VerifC05VerifyState(cs *ChainService) (needWait bool, pending int) {
 	return cs.validator.isNeedWait, len(cs.validator.signVerifier.resultCh)
 }
+
+// VerifC05ErrBlock returns the block the bad-block cache holds under this id (nil if none); Peek does not touch recency.
+func VerifC05ErrBlock(cs *ChainService, id types.BlockID) *types.Block {
+	if v, ok := cs.errBlocks.Peek(types.HashID(id)); ok {
+		if b, ok := v.(*types.Block); ok {
+			return b
+		}
+	}
+	return nil
+}
